@@ -26,15 +26,7 @@ def correspondence(ctx):
     acc = (lambda p: p['style'] in styles) if styles else None
     r = FL.correspondence(ctx, PID, kw, 60, 1500, accept=acc)
     # the plugin layer: scripts come from the settings text, episodes also end with the print, pause / resume must not touch them
-    hs = [PS.gen_history(ctx.rng) for _ in range(ctx.n(30, 600))]
-    nev, dis, rows, shards = PS.run_histories(hs, PID.lower() + 'p')
-    for d in dis[:3]:
-        r['disagreements'].append(dict(kind=d['kind'], stream='plugin', case=PS.describe(d['hist'], d['rows'])) if d['kind'] == 'model!=impl' else d)
-    r['evaluations'] += len(hs)
-    r['shards'] += shards
-    r['plugin_stream'] = dict(histories=len(hs), events=nev)
-    r['rule'] += '; plus the `plugin` stream: histories of events (incl. pause / resume), settings updates with script texts (comments, blank lines, '\
-                 'non-G-code lines, CRLF), hooks and API requests against the real plugin object'
+    PS.merge_into(r, ctx, PID.lower() + 'p', 30, 600)
     return r
 
 
